@@ -378,11 +378,28 @@ def m_map_err(ex, st, func, args, argtys, dest_ty):
     return in_state_call(ex, args[1], [e.fields[0]], err)
 
 
+def fn_item_model(clos):
+    """if the callee value is a fn item that only a model implements, return (name, model)"""
+    c = clos.get() if isinstance(clos, Ref) else clos
+    if isinstance(c, Opaque) and c.what == "zst" and "{closure@" not in str(c.data):
+        mm = re.search(r"\{(.+)\}\s*$", str(c.data), re.S)
+        if mm:
+            name = mm.group(1)
+            model_ = find_model(name)
+            if model_ is not None:
+                return name, model_
+    return None
+
+
 @model(r"Option::<.*>::map::<.*>$")
 def m_opt_map(ex, st, func, args, argtys, dest_ty):
     e = args[0]
     if e.variant == 0:
         return [("ret", none(), None)]
+    fm = fn_item_model(args[1])
+    if fm is not None and ex.resolve(fm[0], ["?"], "?") is None:
+        outs = fm[1](ex, st, fm[0], [e.fields[0]], ["?"], "?")
+        return [(k, some(v) if k == "ret" else v, c) for k, v, c in outs]
     return in_state_call(ex, args[1], [e.fields[0]], some)
 
 
@@ -781,6 +798,11 @@ def m_parse_uint(ex, st, func, args, argtys, dest_ty):
 @model(r"str::<impl str>::parse::<(?!u8>|u16>|u32>|u64>|u128>|usize>|f64>)([\w:]+)>$")
 def m_parse_crate_type(ex, st, func, args, argtys, dest_ty):
     ty = re.search(r"parse::<([\w:]+)>$", func).group(1)
+    fname = "<%s as FromStr>::from_str" % ty
+    for pat, stub in ex.overrides.items():
+        if (re.search(pat, fname) if pat.startswith("^") else pat in fname):
+            ex.stubs_used.add("override <- " + fname)
+            return [("ret", stub(ex, st, [args[0]]), None)]
     target = ex.resolve("<%s as FromStr>::from_str" % ty, ["&str"], "?")
     if target is None:
         raise Unsupported("FromStr impl for %s" % ty)
@@ -1564,6 +1586,8 @@ def m_string_len(ex, st, func, args, argtys, dest_ty):
 @model(r"^<String as Deref>::deref$")
 def m_string_deref(ex, st, func, args, argtys, dest_ty):
     cs = deref(args[0])
+    if isinstance(cs, SymStr):
+        return [("ret", args[0], None)]          # an abstract String is its own &str
     return [("ret", Ref([SymStr("own", chars=list(cs))]), None)]
 
 
@@ -2193,3 +2217,87 @@ def m_array_map(ex, st, func, args, argtys, dest_ty):
             raise Unsupported("array::map closure forks or panics")
         out.append(live[0][1])
     return [("ret", Struct(out), None)]
+
+
+# ---- Settings::from_env: the environment is a BTreeMap<String, String> with literal keys and
+# abstract values
+
+def _lit(s):
+    s = deref(s)
+    if isinstance(s, str):
+        return s
+    if isinstance(s, SymStr) and s.chars is not None and all(is_conc(c) for c in s.chars):
+        return "".join(chr(int(c)) for c in s.chars)
+    return None
+
+
+@model(r"BTreeMap::<String, String>::get::<str>$")
+def m_btreemap_get_str(ex, st, func, args, argtys, dest_ty):
+    mp = cref(args[0])
+    key = _lit(args[1])
+    if key is None:
+        raise Unsupported("BTreeMap::get with a non-literal key")
+    for i, pair in enumerate(mp.get()):
+        k = _lit(pair[0])
+        if k is None:
+            raise Unsupported("BTreeMap with a non-literal key")
+        if k == key:
+            return [("ret", some(Ref(mp.cell, mp.path + (i, 1))), None)]
+    return [("ret", none(), None)]
+
+
+@model(r"^String::is_empty$|^(std::string::|alloc::string::)String::is_empty$|str::<impl str>::is_empty$")
+def m_string_is_empty(ex, st, func, args, argtys, dest_ty):
+    s = deref(args[0])
+    if not isinstance(s, SymStr):
+        raise Unsupported("is_empty on %r" % (s,))
+    c = s_count(ex, st, s)
+    return [("ret", (c == 0) if is_conc(c) else zint(c) == 0, None)]
+
+
+def path_token(ex, st, s):
+    """the path named by an abstract string (an uninterpreted token of it)"""
+    return sattr(ex, st, s, "path_token", lambda: ex.fresh_int("u32", "path_of_" + s.id))
+
+
+@model(r"^<(std::path::)?PathBuf as From<&String>>::from$|^<(std::path::)?PathBuf as From<&(std::string::)?String>>::from$")
+def m_pathbuf_from_string(ex, st, func, args, argtys, dest_ty):
+    s = deref(args[0])
+    if not isinstance(s, SymStr):
+        raise Unsupported("PathBuf::from(%r)" % (s,))
+    return [("ret", path_token(ex, st, s), None)]
+
+
+@model(r"Option::<(std::result::)?Result<.*>>::transpose$")
+def m_option_transpose(ex, st, func, args, argtys, dest_ty):
+    o = args[0]
+    if o.variant == 0:
+        return [("ret", ok(none()), None)]
+    r = o.fields[0]
+    if r.variant == 0:
+        return [("ret", ok(some(r.fields[0])), None)]
+    return [("ret", err(r.fields[0]), None)]
+
+
+@model(r"str::<impl str>::split_whitespace$")
+def m_split_whitespace(ex, st, func, args, argtys, dest_ty):
+    return [("ret", Opaque("splitws", deref(args[0])), None)]
+
+
+@model(r"^<SplitWhitespace<'_> as Iterator>::map::<.*>$")
+def m_splitws_map(ex, st, func, args, argtys, dest_ty):
+    return [("ret", Opaque("splitws_map", args[0].data), None)]
+
+
+@model(r"^<(std::iter::)?Map<SplitWhitespace<'_>, .*> as Iterator>::collect::<(std::result::)?Result<(std::collections::)?HashSet<.*>, .*>>$")
+def m_splitws_collect_ids(ex, st, func, args, argtys, dest_ty):
+    """parsing a whitespace-separated id list: either every word parses (an arbitrary set of two ids,
+    attributes of the string) or some word does not (Err)"""
+    s = args[0].data
+    def mk():
+        a, b = ex.fresh_int("u32", "id0_" + s.id), ex.fresh_int("u32", "id1_" + s.id)
+        return (a, b, z3.Bool("ids_ok_%s_%d" % (s.id, next(ex.fresh))))
+    a, b, okf = sattr(ex, st, s, "id_list", mk)
+    facts = [a >= 0, a < 2**32, b >= 0, b < 2**32, a != b]
+    return [("ret", ok(Container("hashset", [Struct([a, 0]), Struct([b, 0])])), z3.And(okf, *facts)),
+            ("ret", err(Opaque("ParseError")), z3.Not(okf))]
